@@ -8,7 +8,7 @@
    `saturating_as::<i32>()`), which IS modelled; the hypotheses `isect_nosat` / `join_nosat` say that the
    cast is not reached (the rounded quotient fits an i32), `jline_ok` is the coordinate range +-511 in
    which that is guaranteed for arbitrary pairs of lines. *)
-From EG Require Import Base.Prelude Model.Geometry Model.Line Model.Thickline Model.Join Model.JoinTri Proofs.Join Proofs.JoinTri.
+From EG Require Import Base.Prelude Model.Geometry Model.Style Model.Line Model.Thickline Model.Join Model.JoinTri Proofs.Join Proofs.JoinTri.
 Set Default Timeout 60.
 
 (* the arithmetic core of repair a4a7ab8 (floor-based rounding): adding k divisors to the numerator moves the
@@ -131,15 +131,47 @@ Theorem C07_join_polyline_bbox_translate : forall w d a b r,
   option_map (fun bb => translate_rect bb d) (poly_thick_bounding_box (a :: b :: r) w).
 Proof. exact poly_thick_bounding_box_tr. Qed.
 
-(* ---- thick triangles (Model/JoinTri.v): the full statement C07_join_triangle_translate is OPEN (see Proofs/Join.v);
-   proved: the scanline of every thick edge of the stroke moves with the triangle, for all three stroke offsets *)
-Theorem C07_join_triangle_edge_scanline_translate_partial : forall t w so d idx y, tri_nosat t w so d = true ->
+(* ---- composition: stroked (and filled) triangles, all three stroke alignments (Model/JoinTri.v: the whole pipeline of
+   triangle/{scanline_intersections,scanline_iterator,styled}.rs incl. is_collapsed and the clockwise ordering) ----------
+   Hypotheses: tri_nosat  - as poly_nosat, for the three joins of the clockwise triangle;
+               tri_box_ok - vertices and segment corners within +-2^29.  tri_hyps is their computable conjunction. *)
+
+(* the scanline of every thick edge of the stroke moves with the triangle *)
+Theorem C07_join_triangle_edge_scanline_translate : forall t w so d idx y, tri_nosat t w so d = true ->
   match jt_edge_scanline t w so idx y, jt_edge_scanline (tr_tri d t) w so idx (y + py d) with
   | Some s, Some s' => sl_rel d s s'
   | None, None => True
   | _, _ => False
   end.
 Proof. exact jt_edge_scanline_rel. Qed.
+
+(* pixels(): the moved pixels, same colours, same order *)
+Theorem C07_join_triangle_pixels_translate : forall d t w al fill,
+  tri_nosat (jt_sorted_clockwise t) w (so_of_alignment al) d = true ->
+  tri_box_ok t w (so_of_alignment al) -> tri_box_ok (tr_tri d t) w (so_of_alignment al) ->
+  jt_pixels (tr_tri d t) w al fill = option_map (map (tr_pc d)) (jt_pixels t w al fill).
+Proof. exact jt_pixels_tr. Qed.
+
+(* draw(): the moved fill_solid rectangles, same colours, same order *)
+Theorem C07_join_triangle_draw_translate : forall d t w al fill,
+  tri_nosat (jt_sorted_clockwise t) w (so_of_alignment al) d = true ->
+  tri_box_ok t w (so_of_alignment al) -> tri_box_ok (tr_tri d t) w (so_of_alignment al) ->
+  jt_draw (tr_tri d t) w al fill = option_map (map (fun rc => (translate_rect (fst rc) d, snd rc))) (jt_draw t w al fill).
+Proof. exact jt_draw_tr. Qed.
+
+(* the same with the single computable hypothesis tri_hyps (evaluated by the model oracle, suite join_tri_hyp) *)
+Theorem C07_join_triangle_pixels_translate_computable : forall d t w al fill, tri_hyps t w al d = true ->
+  jt_pixels (tr_tri d t) w al fill = option_map (map (tr_pc d)) (jt_pixels t w al fill).
+Proof. exact jt_pixels_tr_hyps. Qed.
+
+Theorem C07_join_triangle_draw_translate_computable : forall d t w al fill, tri_hyps t w al d = true ->
+  jt_draw (tr_tri d t) w al fill = option_map (map (fun rc => (translate_rect (fst rc) d, snd rc))) (jt_draw t w al fill).
+Proof. exact jt_draw_tr_hyps. Qed.
+
+(* the styled bounding box moves with the triangle *)
+Theorem C07_join_triangle_bbox_translate : forall d t w al, tri_hyps t w al d = true ->
+  jt_styled_bounding_box (tr_tri d t) w al = option_map (fun bb => translate_rect bb d) (jt_styled_bounding_box t w al).
+Proof. exact jt_styled_bounding_box_tr_hyps. Qed.
 
 (* non-vacuity: the hypotheses hold and the functions compute something non-trivial.
    The lines of finding l (Triangle (0,0),(3,1),(3,9), stroke 4, moved by (13,-11)): a miter join whose
@@ -174,3 +206,12 @@ Proof.
     cbv iota beta. repeat (constructor; try (unfold seg_ok, jpt_big, jbig; cbn; lia)).
   - vm_compute. split; reflexivity.
 Qed.
+
+(* non-vacuity of the triangle composition: the triangle of finding l, (0,0),(3,1),(3,9) with stroke 4 moved by (13,-11),
+   all three alignments, with a fill colour *)
+Example C07_join_triangle_nonvacuous :
+  let t := (P 0 0, P 3 1, P 3 9) in let d := P 13 (-11) in
+  tri_hyps t 4 Style.Inside d = true /\ tri_hyps t 4 Style.Center d = true /\ tri_hyps t 4 Style.Outside d = true /\
+  option_map (@length (point * Z)) (jt_pixels t 4 Style.Center (Some 2)) = Some 85%nat /\
+  jt_styled_bounding_box t 4 Style.Outside = Some (R (P (-5) (-5)) (S 12 16)).
+Proof. vm_compute. repeat split; reflexivity. Qed.
